@@ -10,7 +10,7 @@ NOT_CLAIMED = {}
 
 PROPS = {
     "C01": dict(level="translation_validation", modules=["SemVerif.Props.C01"],
-                theorems=[], profiles=[("wf", 300, 20000), ("fault1", 300, 20000), ("wild", 500, 30000)]),
+                theorems=[], profiles=[("wf", 300, 20000), ("fault1", 300, 20000), ("fault2", 200, 10000), ("wild", 500, 30000)]),
     "C02": dict(level="translation_validation", modules=["SemVerif.Props.C02"],
                 theorems=[], profiles=[("wf", 600, 40000), ("wfclean", 300, 20000)]),
     "C03": dict(level="translation_validation", modules=["SemVerif.Props.C03"],
@@ -46,7 +46,7 @@ PROPS = {
                 claim="Machine-checked: (1) every function of the Lean model is accepted as total by structural recursion (termination for every AST; the probe loops' fuel is proved sufficient); (2) theorem C13: for every program whose loop-flavoured if-bodies occur only inside loops the run does not panic (nothing below statement level can panic — the argument-index site is unreachable after the F1 repair; the only site is the documented expect); (3) inv_panicSites pins the unwrap/expect/index/+1 sites of the Rust source to the ones the model accounts for, regenerated on every run. RefCell borrows, integer overflow and native stack depth are outside the model and only exercised by running the real code under catch_unwind.",
                 technique="Lean 4 proof (mutual structural induction / invariants) + differential correspondence of the executable model", profiles=[("wild", 800, 50000), ("loopout", 300, 10000), ("wf", 200, 10000)]),
     "C14": dict(level="translation_validation", modules=["SemVerif.Props.C14"],
-                theorems=[], profiles=[("fault1", 400, 30000), ("wild", 600, 40000)]),
+                theorems=[], profiles=[("fault1", 400, 30000), ("fault2", 300, 20000), ("wild", 600, 40000)]),
     "C15": dict(level="proof", modules=["SemVerif.Props.C15"],
                 theorems=["SemVerif.C15", "SemVerif.rel_run"],
                 claim="Machine-checked Lean 4 theorem C15: for every program the output predicate holds on the model's result — the three tables and the global stack are exactly those of the declarative registration declPhase (first declaration of each name whose own checks pass; types first, then constants and functions in source order, one instruction each), one root block per function, no key twice. Proved by a simulation between the model's pass1/pass2 and the rule checker's declTypes/declConstsFns, by induction over the top-level list. Tied to /repo by the correspondence run (projection: tables, global stack, number of roots) on programs with duplicate names and failing declarations.",
